@@ -143,6 +143,7 @@ fn abstract_ev(e: &Ev) -> Option<String> {
             }
         ),
         Ev::OpCancel { sender, op } => format!("oc{sender}.{op}"),
+        Ev::AckCb { pid, disc, .. } => format!("cb{pid}{disc}"),
         Ev::ConnDone { conn, .. } => format!("cd{conn}"),
         Ev::Fault { kind, .. } => format!("f:{kind}"),
         Ev::Phase { name } => format!("ph:{name}"),
